@@ -176,7 +176,8 @@ def run_case(case):
         try:
             for oi in seq:
                 typ, (code, end), cmd = ops[oi]
-                statuses.add_status(code, typ, 'vp', end, cmd_cls[cmd])
+                # (the type name as it comes out of a configuration file: an equal string, not the very object of a source literal)
+                statuses.add_status(code, ''.join(list(typ)), 'vp', end, cmd_cls[cmd])
                 for c in range(code, (end if end is not None else code) + 1):
                     if cmd is None:
                         ref_g[c] = typ
@@ -190,8 +191,8 @@ def run_case(case):
                     st = statuses.Status(c, cmd_cls[cmd])
                     if st.status_type != exp or sum(1 for f in _flags(st) if f) != 1 or int(st) != c:
                         viol.append(('c18:add_status:%s' % '-'.join(map(str, seq)),
-                                     'after add_status ops %r: Status(0x%04X, %s).status_type=%r, reference model says %r'
-                                     % ([ops[i] for i in seq], c, cmd, st.status_type, exp)))
+                                     'after add_status ops %r: Status(0x%04X, %s).status_type=%r flags (success, pending, warning, cancel, failure)=%r int=%r, '
+                                     'reference model says %r, exactly one flag' % ([ops[i] for i in seq], c, cmd, st.status_type, _flags(st), int(st), exp)))
         finally:
             statuses._general_status_dict.clear()
             statuses._general_status_dict.update(g0)
